@@ -55,6 +55,67 @@ func isBlank(e ast.Expr) bool {
 	return ok && id.Name == "_"
 }
 
+var locks, locksSkipped int
+
+// rewriteLock turns x.Lock() / x.RLock() on a sync.Mutex / sync.RWMutex (value or pointer, reached
+// through an addressable expression) into simrt.Lock(&x) / simrt.LockRW(&x) / simrt.RLock(&x):
+// lock points become scheduling points of the cooperative scheduler (C25 tier B); without an active
+// scheduler they are the plain calls.
+func rewriteLock(p *packages.Package, call *ast.CallExpr) ast.Expr {
+	sel, ok := call.Fun.(*ast.SelectorExpr)
+	if !ok || len(call.Args) != 0 || (sel.Sel.Name != "Lock" && sel.Sel.Name != "RLock" && sel.Sel.Name != "Unlock" && sel.Sel.Name != "RUnlock") {
+		return nil
+	}
+	tv, ok := p.TypesInfo.Types[sel.X]
+	if !ok {
+		return nil
+	}
+	t := tv.Type
+	ptr := false
+	if pt, ok := t.(*types.Pointer); ok {
+		t, ptr = pt.Elem(), true
+	}
+	named, ok := t.(*types.Named)
+	if !ok || named.Obj().Pkg() == nil || named.Obj().Pkg().Path() != "sync" {
+		if s := p.TypesInfo.Selections[sel]; s != nil {
+			if fn, ok := s.Obj().(*types.Func); ok && fn.Pkg() != nil && fn.Pkg().Path() == "sync" {
+				pos := p.Fset.Position(call.Pos())
+				fmt.Fprintf(os.Stderr, "lock not instrumented (embedded mutex): %s:%d\n", pos.Filename, pos.Line)
+				locksSkipped++
+			}
+		}
+		return nil
+	}
+	var fn string
+	switch named.Obj().Name() + "." + sel.Sel.Name {
+	case "Mutex.Lock":
+		fn = "Lock"
+	case "RWMutex.Lock":
+		fn = "LockRW"
+	case "RWMutex.RLock":
+		fn = "RLock"
+	case "Mutex.Unlock":
+		fn = "Unlock"
+	case "RWMutex.Unlock":
+		fn = "UnlockRW"
+	case "RWMutex.RUnlock":
+		fn = "RUnlock"
+	default:
+		return nil
+	}
+	arg := sel.X
+	if !ptr {
+		if !tv.Addressable() {
+			pos := p.Fset.Position(call.Pos())
+			fmt.Fprintf(os.Stderr, "lock not instrumented (not addressable): %s:%d\n", pos.Filename, pos.Line)
+			locksSkipped++
+			return nil
+		}
+		arg = &ast.UnaryExpr{Op: token.AND, X: sel.X}
+	}
+	return &ast.CallExpr{Fun: &ast.SelectorExpr{X: ast.NewIdent("simrt"), Sel: ast.NewIdent(fn)}, Args: []ast.Expr{arg}}
+}
+
 func main() {
 	if len(os.Args) != 2 {
 		fmt.Fprintln(os.Stderr, "usage: instrument <repo-dir>")
@@ -83,6 +144,14 @@ func main() {
 			changed := false
 			n := 0
 			astutil.Apply(f, func(c *astutil.Cursor) bool {
+				if call, ok := c.Node().(*ast.CallExpr); ok {
+					if repl := rewriteLock(p, call); repl != nil {
+						c.Replace(repl)
+						changed = true
+						locks++
+					}
+					return true
+				}
 				rs, ok := c.Node().(*ast.RangeStmt)
 				if !ok {
 					return true
@@ -146,5 +215,5 @@ func main() {
 			files++
 		}
 	}
-	fmt.Printf("instrument: %d map ranges rewritten in %d files, %d left alone\n", rewritten, files, skipped)
+	fmt.Printf("instrument: %d map ranges rewritten in %d files, %d left alone; %d lock points rewritten, %d left alone\n", rewritten, files, skipped, locks, locksSkipped)
 }
